@@ -5,9 +5,11 @@ import functools
 import itertools
 import math
 import operator
+import os
 import pathlib
 import pickle
 import random
+import threading
 from functools import lru_cache, partial, reduce
 from operator import or_
 
@@ -655,10 +657,13 @@ class DiskDict:
         if self._directory is None:
             return False
 
-        if not isinstance(k, tuple):
-            k = (k,)
-
-        return self._path.joinpath(*k).exists()
+        # present means loadable: an unreadable (e.g. partially written)
+        # file is treated as a missing entry
+        try:
+            self[k]
+        except KeyError:
+            return False
+        return True
 
     def __setitem__(self, k, v):
         self._mem_cache[k] = v
@@ -670,9 +675,22 @@ class DiskDict:
             if len(k) > 1:
                 # ensure subparent directories exist
                 fname.parent.mkdir(parents=True, exist_ok=True)
-            # write file!
-            with open(fname, "wb+") as f:
-                pickle.dump(v, f)
+            # write to a temporary file in the same directory, then atomically
+            # move it into place, so that a reader (or a later process, if
+            # this one dies midway) never sees a partially written entry
+            tmp = fname.with_name(
+                f".{fname.name}.{os.getpid()}-{threading.get_ident()}.tmp"
+            )
+            try:
+                with open(tmp, "wb") as f:
+                    pickle.dump(v, f)
+                os.replace(tmp, fname)
+            except BaseException:
+                try:
+                    os.unlink(tmp)
+                except OSError:
+                    pass
+                raise
 
     def __getitem__(self, k):
         try:
@@ -682,12 +700,11 @@ class DiskDict:
                 # cache is in-memory only
                 raise e
 
-            if not isinstance(k, tuple):
-                # treat all as nested key
-                k = (k,)
+            # treat all as nested key
+            parts = k if isinstance(k, tuple) else (k,)
 
-            fname = self._path.joinpath(*k)
-            if not fname.exists():
+            fname = self._path.joinpath(*parts)
+            if not fname.is_file():
                 # file does not exist on disk
                 raise e
 
@@ -696,14 +713,15 @@ class DiskDict:
                     with open(fname, "rb") as f:
                         self._mem_cache[k] = v = pickle.load(f)
                         return v
-                except (EOFError, pickle.UnpicklingError) as e:
+                except (EOFError, pickle.UnpicklingError):
                     # file was not written completely yet
                     # e.g. by another process
                     import time
 
                     time.sleep(self.retry_delay)
 
-            # file exists but there is some other error after retrying
+            # file exists but is still unreadable after retrying, e.g. a
+            # process died while writing it: treat the entry as missing
             raise e
 
 
